@@ -877,15 +877,41 @@ func script(c *vk.C, p *pool, rng *rand.Rand, k int, cn counters) {
 		return true
 	}
 
+	type heldForm struct {
+		at        int
+		raw, copy []byte
+	}
+
+	var heldForms []heldForm
+
 	for i := 0; i < n; i++ {
 		o := genOp(rng, m)
 		rec := stepRec{I: i, Op: o.Kind, Variant: o.Variant, Class: o.Class}
 
-		pre, _, preErr, pp, pst := snapshot(ks)
+		pre, preRaw, preErr, pp, pst := snapshot(ks)
 		if pp != nil {
 			fail(sigPanic, map[string]any{"call": "MarshalBinary", "panic": fmt.Sprint(pp), "stack": pst})
 
 			return
+		}
+
+		// serialized forms handed out earlier are the caller's: later operations and later MarshalBinary calls on the storage must
+		// not change them (a backup taken before a slot was deleted has to stay that backup)
+		for _, h := range heldForms {
+			cn["held_serialized_forms_checked"]++
+
+			if !bytes.Equal(h.raw, h.copy) {
+				fail("serialized-form-changed-by-later-operations", map[string]any{"taken_at_step": h.at, "now_step": i, "was_hex": hexClip(h.copy), "now_hex": hexClip(h.raw)})
+
+				return
+			}
+		}
+
+		if preErr == nil && len(preRaw) > 0 {
+			heldForms = append(heldForms, heldForm{at: i, raw: preRaw, copy: bytes.Clone(preRaw)})
+			if len(heldForms) > 6 {
+				heldForms = heldForms[1:]
+			}
 		}
 
 		var (
@@ -2187,4 +2213,12 @@ func evalVariant(c *vk.C, p *pool, st *corrState, creds []cred, v variant, cn co
 	}
 
 	return !violated
+}
+
+func hexClip(b []byte) string {
+	if len(b) > 96 {
+		return hex.EncodeToString(b[:96]) + "..."
+	}
+
+	return hex.EncodeToString(b)
 }
